@@ -15,7 +15,7 @@ func init() {
 	register("C02", "R9", 6, "response header rules do what they say (the C16.R1 decision, claimed here for the response-header clause: `name: value` adds a line and keeps the origin's, `name;` leaves one empty value, `-name` removes)", c16r1)
 	register("C03", "R10", 1, "each direction of a tunnel reports completion exactly once on every exit of copier.copy, and bicopy waits for as many reports as it started copies: an exit that skips the report leaves the handler blocked for ever with the client socket open", copierReports)
 	register("C11", "R8", 1, "a tunnel that ends in a copy error still ends: every exit of copier.copy reports on the completion channel (same decision as C03.R10) - otherwise the handler never returns, the connection count never reaches zero and Shutdown cannot succeed", copierReports)
-	register("C05", "R8", 1, "a CONNECT whose route cannot be determined is failed, not tunnelled: in Proxy.connect the error of the configured upstream selector is tested right after the call; on the error path that error is returned and nothing is dialled", connectRouteError)
+	register("C05", "R12", 1, "a CONNECT whose route cannot be determined is failed, not tunnelled: in Proxy.connect the error of the configured upstream selector is tested right after the call; on the error path that error is returned and nothing is dialled", connectRouteError)
 	register("C06", "R9", 1, "one selector decides the route and who gets upstream credentials: at the end of configureProxy the function installed as the martian proxy's ProxyURL is the very value kept in HTTPProxy.proxyFunc (which the Kerberos injector and the PAC/credential code consult) - direct-domain and direct-localhost wrappers included", oneSelector)
 	register("C05", "R9", 1, "the selector the transport routes by is the selector everything else consults (same decision as C06.R9)", oneSelector)
 	register("C07", "R8", 1, "the configured CA is the CA that signs: loadCACertificate generates a CA only when neither a certificate nor a key file is configured; with either one set it loads the pair (and fails when the other is missing)", caChoice)
@@ -27,7 +27,7 @@ func init() {
 	register("C15", "R8", 2, "nothing but the handshake timeout limits a MITM handshake: handleConnectRequest hands handleMITM the request as it was read (no copy carrying another context), and the handshake context descends from that request's context", mitmParentContext)
 	register("C15", "R9", 1, "stalled peers exhausting descriptors do not stop the accept loop: Serve backs off and retries on every error that reports Temporary() (EMFILE/ENFILE are temporary but not time-outs)", acceptRetriesTemporary)
 	register("C16", "R10", 1, "connect-header rules reach the upstream proxy in the spelling they were given: DialContextR merges ProxyConnectHeader and the GetProxyConnectHeader result by raw map key (maps.Copy or map assignment), never through Header.Set/Add/Del with a computed name (those canonicalise the key and undo a %name rule)", connectHeaderSpelling)
-	register("C17", "R4", 2, "the lists handed to the matcher are exactly the collected items: the include and exclude arguments of NewRegexpMatcher in NewRegexpMatcherFromList are built by the partition's appends alone - nothing replaces, truncates or filters them afterwards", listsOnlyCollected)
+	register("C17", "R5", 2, "the lists handed to the matcher are exactly the collected items: the include and exclude arguments of NewRegexpMatcher in NewRegexpMatcherFromList are built by the partition's appends alone - nothing replaces, truncates or filters them afterwards", listsOnlyCollected)
 	register("C19", "R7", 1, "environment values never reach a message: what os.Environ/os.Getenv/os.LookupEnv return (other than the variable's name, and the value of a fixed variable outside the FORWARDER_ namespace) is not an argument of a logger or formatted output call, in any function it is handed to", envNotLogged)
 	register("C19", "R8", 5, "a log line carries only what its own exchange and mode recorded: every structuredLogBuilder is a zero value local to one logging call - never taken from a pool, a package variable or a field (headers left by another exchange would be printed under a mode that never asked for them)", freshLogBuilder)
 	register("C03", "R11", 2, "the grace period of a half-closed tunnel starts when the first direction finishes: gracefulCloseAfter waits on a timer it arms itself (time.After/NewTimer inside it, not one handed in by the caller), and bicopy creates no timer or deadline before the first completion report", graceStartsAtHalfClose)
@@ -683,6 +683,16 @@ func listsOnlyCollected(r *R) {
 					return
 				}
 				other = append(other, describe(x))
+			case *ssa.Extract:
+				if hc, ok := x.Tuple.(*ssa.Call); ok {
+					if g := staticCallee(hc.Common()); g != nil && isNewHelper(g) {
+						for _, rv := range returnValues(g, x.Index) {
+							walk(rv)
+						}
+						return
+					}
+				}
+				other = append(other, shorten(describe(x), 70))
 			case *ssa.Call:
 				if calleeName(x.Common()) == "builtin append" {
 					walk(x.Common().Args[0])
